@@ -501,7 +501,7 @@ def run(ctx):
     s_abs = [0.5, 0.0, 0.01, 1e-9, 5.0] + [extra_s]
     s_alpha = _both_signs(s_abs)
     m_off = ["same", 1e-9, 0.05, 1.0, "to_zero", "cross"]
-    extra_k = ctx.extra_symbol("strike", [0.7, 0.9, 2.0, 100.0, 0.125])
+    extra_k = ctx.extra_symbol("strike", [0.8, 0.9, 2.0, 100.0, 0.125])
     strikes = [1.0, 0.5, 1.3, 1.1, 3.0, 10.0, extra_k]
     if ctx.thorough:
         ts2 = tiny + [1e-30, 1e-6, 0.004, 0.25, 1.0, 30.0]
@@ -510,7 +510,7 @@ def run(ctx):
         s_abs = [0.5, 0.0, 1e-12, 1e-9, 1e-4, 0.01, 0.1, 1.0, 5.0, 20.0] + [extra_s]
         s_alpha = _both_signs(s_abs)
         m_off = ["same", 1e-12, 1e-9, 0.001, 0.05, 1.0, "to_zero", "cross"]
-        strikes = [1.0, 0.5, 1.3, 1.1, 3.0, 10.0, 0.01, 250.0, extra_k]
+        strikes = [1.0, 0.5, 1.3, 1.1, 0.7, 3.0, 10.0, 0.01, 250.0, extra_k]
     ctx.alphabet("(t,v) pairs", tv)
     ctx.alphabet("log_moneyness", s_alpha)
     ctx.alphabet("running-max offsets", m_off)
